@@ -53,6 +53,10 @@ class Workspace(object):
         """Make `import xtuml` / `import bridgepoint` resolve to the copy."""
         sys.dont_write_bytecode = True
         sys.path.insert(0, str(self.repo))
+        # /venv holds an editable install of /repo whose meta-path finder would resolve submodules that are
+        # missing in the copy (PLY's generated `__*tab` modules!) to /repo: drop it, the copy must be self-contained
+        sys.meta_path[:] = [f for f in sys.meta_path
+                            if '__editable__' not in str(getattr(f, '__module__', '')) + str(getattr(f, '__name__', ''))]
         for name in list(sys.modules):
             if name == 'xtuml' or name.startswith('xtuml.') or name == 'bridgepoint' \
                     or name.startswith('bridgepoint.'):
@@ -62,6 +66,18 @@ class Workspace(object):
         import xtuml
         if not os.path.realpath(xtuml.__file__).startswith(os.path.realpath(str(self.repo))):
             raise HarnessError('xtuml was imported from %s, not from the workspace' % xtuml.__file__)
+        import bridgepoint.oal
+        import xtuml.load
+        xtuml.load.ModelLoader()
+        bridgepoint.oal.OALParser()
+        import ply.lex
+        ply.lex.lex(module=xtuml.load.ModelLoader(), optimize=1, outputdir=os.path.dirname(xtuml.load.__file__),
+                    lextab='xtuml.__xtuml_lextab')
+        for name, mod in list(sys.modules.items()):
+            if name.endswith('tab') and (name.startswith('xtuml.') or name.startswith('bridgepoint.')):
+                f = getattr(mod, '__file__', '') or ''
+                if not os.path.realpath(f).startswith(os.path.realpath(str(self.repo))):
+                    raise HarnessError('generated PLY table %s was loaded from %s, not from the workspace' % (name, f))
         self.active = True
         return xtuml
 
